@@ -32,6 +32,25 @@ CHECKS = {
     "C06": dict(cat="exploration", engine="E1-world", tech=T_WORLD + "invariant on the simulator's active-batch count and per-node live process count",
                 text="After every sbatch the simulator's queued+running batches <= max-nodes; after every launch live job "
                      "processes on the node <= processes-per-node or the node's CPU count."),
+    "C07": dict(cat="exploration", engine="E1-world+E3-model", tech="exhaustive enumeration of a small-scope grid (itertools) plus Hypothesis-generated scenarios in the simulation world; validity predicate per sbatch; dry-run metamorphic relation",
+                text="Every batch handed to sbatch is checked against its group's size/time limit, group purity, #SBATCH and run options, "
+                     "and the blocked-job admission rule; first rounds enumerated exhaustively for <=3 jobs (and an n=4 sub-space in the "
+                     "thorough tier), full submissions generated beyond that; dry run compared with the real first round."),
+    "C09": dict(cat="exploration", engine="E1-world", tech=T_WORLD + "state invariant and forward-only relation over snapshots taken at every cluster-lock release",
+                text="The four cluster files are snapshotted after every release of the cluster lock (any process) in histories with "
+                     "submitter rounds, cancellations, user commands and resubmissions; each snapshot must be internally consistent and "
+                     "only move forward within an epoch; final state read back through the public API."),
+    "C13": dict(cat="exploration", engine="E1-world+E3-model", tech=T_WORLD + "differential against the reference closure model; before/after comparison of results and state",
+                text="Completed submissions produced by the world itself (incl. lost batches) are resubmitted with all flag combinations, "
+                     "new exit codes and repetitions; launches must equal the reference closure, other results preserved; refusal on "
+                     "incomplete submissions (idle and while another process is submitter) must be clean and leave a way forward."),
+    "C14": dict(cat="exploration", engine="E1-world", tech=T_WORLD + "history invariant relative to the instant the canceled flag became visible",
+                text="cancel-jobs is fired a generated number of steps into the run (with/without --complete) followed by generated "
+                     "try-submit-jobs/show-status commands; no sbatch after the flag, every active id scancelled, earlier results kept, "
+                     "never-run jobs reported missing."),
+    "C16": dict(cat="exploration", engine="E1-world", tech=T_WORLD + "invariant over hook invocations recorded at the subprocess boundary",
+                text="All 16 set/unset combinations of the four lifecycle commands, HPC and local mode, optional resubmission; counts, "
+                     "ordering relative to sbatch/launch/finish/completion, hosts and environment of every hook invocation are checked."),
 }
 
 NOT_BUILT = "check not built yet (work in progress; see DESIGN.md section 9 build order)"
